@@ -8,6 +8,6 @@ CONSTANTS
   KsIdx = {2, 3, 4, 5, 10}
   TailLen = 2
   Variants = TRUE
-  ExtraKs = {2, 3, 4, 5, 10}
+  ExtraKs = {2, 3, 4}
 INVARIANTS CheckAndEmit
 CHECK_DEADLOCK FALSE
